@@ -22,6 +22,7 @@ where
     T: Send,
 {
     let pool = rayon::ThreadPoolBuilder::new().num_threads(threads.max(1)).build().expect("rayon pool");
+    query_engine::verif::knobs::set("subquery.single_thread_runtime", 1);
     pool.install(|| {
         let rt = tokio::runtime::Builder::new_current_thread()
             .enable_all()
